@@ -10,7 +10,8 @@ import itertools
 import re
 
 from ..absint import AList, AObj, Interp, Unknown
-from ..astutil import calls_in, call_name, norm
+from ..astutil import calls_in, call_name, get_kwarg, norm, single_assignments, substitute
+from ..exprnorm import linear
 from ..cfg import cfg_of
 from ..core import AnalysisError
 from ..roles import RoleChecker
@@ -91,6 +92,29 @@ def rule_conflicts(repo, rep):
                 vals.append(n.value)
         ok = bool(vals) and all(_is_sorted_concat(v) for v in vals)
         rep.check(ok, "C04-a", f"{RFILE}:{q}", "merged range list is sorted(self.ranges + other.ranges)", "; ".join(norm(v) for v in vals))
+    # RangeSet.intersects touches range endpoints only through comparisons, so its verdict depends only on the
+    # order type of the endpoints: interpret it on every pair of start-sorted lists over a small ordered domain
+    # and require that no overlapping pair is answered False (True without overlap is merely conservative)
+    k, nmax = (6, 2) if rep.tier == "quick" else (6, 3)
+    rngs = [(s_, e_) for s_ in range(k) for e_ in range(s_ + 1, k)]
+    lists = [[]]
+    for n_ in range(1, nmax + 1):
+        lists += [sorted(c) for c in itertools.combinations_with_replacement(rngs, n_)]
+    site_i = f"{RFILE}:RangeSet.intersects"
+    missed, npairs = None, 0
+    for a in lists:
+        for b in lists:
+            want = any(max(x[0], y[0]) < min(x[1], y[1]) for x in a for y in b)
+            if not want:
+                continue
+            npairs += 1
+            ps = list(it.run("RangeSet.intersects", lambda: ([AObj("self", {"ranges": AList(list(a))}), AObj("other", {"ranges": AList(list(b))})], {})))
+            if len(ps) != 1:
+                raise AnalysisError(f"RangeSet.intersects not decided by endpoint order alone on {a} / {b}: {[q.decisions for q in ps]}")
+            if ps[0].kind == "return" and ps[0].value is False and missed is None:
+                missed = (a, b)
+    rep.check(missed is None, "C04-a", site_i, f"no overlapping pair of start-sorted range lists (<= {nmax} ranges each, every endpoint order type) is answered False",
+              f"{npairs} overlapping pairs interpreted; self.ranges={missed[0]} other.ranges={missed[1]} overlap but intersects() returns False" if missed else f"{npairs} pairs")
     # other writers of .ranges
     for m in repo.core_modules():
         if "RangeSet" not in m.src:
@@ -154,6 +178,74 @@ def _int_enum(mod, cls):
 
 
 # ------------------------------------------------------------------ b
+
+
+def _vt(v):
+    return v.text if isinstance(v, Unknown) else repr(v)
+
+
+def _shram_form(repo, v, dec, depth=0):
+    """Normal form of an SHRAM byte quantity: an int, or [("banks", x)] meaning
+    arch.shram_bank_size * <bank count x> with x in {True, False, "total"} (the argument of
+    available_shram_banks, resolved through the path's decisions). Attributes of `arch` are expanded through
+    their single assignment in ArchitectureFeatures.__init__. None = not recognised."""
+    if isinstance(v, bool):
+        return None
+    if isinstance(v, int):
+        return v
+    if not isinstance(v, Unknown):
+        return None
+    try:
+        e = ast.parse(v.text, mode="eval").body
+    except SyntaxError:
+        return None
+    arch = repo.mod("architecture_features")
+    init = arch.func("ArchitectureFeatures.__init__")
+
+    def attr_def(name):
+        defs = [st.value for st in ast.walk(init) if isinstance(st, ast.Assign) and len(st.targets) == 1 and norm(st.targets[0]) == f"self.{name}"]
+        return defs[0] if len(defs) == 1 else None
+
+    def factors(n, who, depth=0):
+        if depth > 4:
+            return None
+        if isinstance(n, ast.BinOp) and isinstance(n.op, ast.Mult):
+            a, b = factors(n.left, who, depth), factors(n.right, who, depth)
+            return None if a is None or b is None else a + b
+        if isinstance(n, ast.Constant) and isinstance(n.value, int) and not isinstance(n.value, bool):
+            return [n.value]
+        if isinstance(n, ast.Call) and norm(n.func) == f"{who}.available_shram_banks" and len(n.args) == 1 and not n.keywords:
+            a = n.args[0]
+            if isinstance(a, ast.Constant) and isinstance(a.value, bool):
+                return [("avail", a.value)]
+            t = norm(a)
+            if t in dec:
+                return [("avail", bool(dec[t]))]
+            return None
+        if isinstance(n, ast.Attribute) and norm(n.value) == who:
+            if n.attr == "shram_bank_size":
+                return ["bank_size"]
+            if n.attr == "shram_total_banks":
+                return [("avail", "total")]
+            d = attr_def(n.attr)
+            return factors(d, "self", depth + 1) if d is not None else None
+        return None
+
+    fs = factors(e, "arch")
+    if fs is None:
+        return None
+    ints = [f for f in fs if isinstance(f, int)]
+    rest = [f for f in fs if not isinstance(f, int)]
+    k = 1
+    for i in ints:
+        k *= i
+    if not rest:
+        return k
+    if k == 1 and sorted(map(str, rest)) == sorted(map(str, ["bank_size", rest[0] if rest[0] != "bank_size" else rest[1]])) and len(rest) == 2:
+        av = [f for f in rest if f != "bank_size"]
+        if len(av) == 1 and isinstance(av[0], tuple):
+            return [("banks", av[0][1])]
+    return None
 
 
 def rule_access_sets(repo, rep):
@@ -220,6 +312,23 @@ def rule_access_sets(repo, rep):
             rep.check(len(shram_r) == 1, "C04-b", site, "LUT SHRAM read range present for TABLE_LOOKUP", f"{shram_r}")
         elif lut and not any(lut):
             rep.check(not shram_r, "C04-b", site, "no LUT read range without TABLE_LOOKUP", f"{shram_r}")
+        # extent of the SHRAM ranges: the write range starts at 0 and covers every bank the operation may use as
+        # accumulator/IFM buffer (all banks unless a LUT occupies the top ones); the read range is the LUT slot
+        is_lut = bool(lut and all(lut))
+        dec = {t: d for t, d in p.decisions}
+        for t, d, rng in [(t, d, c[1][0].parts[2][0]) for (t, d), c in zip(adds, [c for c in res.calls if c[0] == "add"])
+                          if "NpuAddressRange" in t and isinstance(c[1][0], Unknown) and c[1][0].parts and c[1][0].parts[0] == "call"]:
+            addr, length = (_shram_form(repo, rng.fields.get(k), dec) for k in ("address", "length"))
+            if d == 1:
+                full = [("banks", False)], [("banks", "total")]
+                want = [("banks", is_lut)]
+                ok = addr == 0 and length is not None and (length in full or length == want)
+                rep.check(ok, "C04-b", site, "SHRAM write range is [0, available_shram_banks(uses LUT) * bank size)" + (" (LUT path)" if is_lut else " (no-LUT path: all banks)"),
+                          f"address={_vt(rng.fields.get('address'))} length={_vt(rng.fields.get('length'))} normalised to {addr}, {length}")
+            else:
+                ok = addr == [("banks", True)] and length == 2048
+                rep.check(ok, "C04-b", site, "LUT read range is [available_shram_banks(True) * bank size, +2048)",
+                          f"address={_vt(rng.fields.get('address'))} length={_vt(rng.fields.get('length'))} normalised to {addr}, {length}")
     rep.check(npaths >= 4, "C04-b", site, "paths enumerated", str(npaths))
     # the SHRAM ranges name the mem2mem region
     f = util.func("get_op_memory_accesses")
@@ -485,20 +594,7 @@ def rule_roles(repo, rep):
 
 
 def rule_polarity(repo, rep):
-    rs = repo.mod("range_set")
-    f = rs.func("RangeSet.intersects")
-    tests = [n for n in ast.walk(f) if isinstance(n, ast.If) and any(isinstance(s, ast.Return) and norm(s.value) == "True" for s in n.body)]
-    ok = len(tests) == 1 and norm(tests[0].test) in ("max(ar[0], br[0]) < min(ar[1], br[1])", "min(ar[1], br[1]) > max(ar[0], br[0])",
-                                                     "ar[0] < br[1] and br[0] < ar[1]", "br[0] < ar[1] and ar[0] < br[1]",
-                                                     "max(ar[0], br[0]) <= min(ar[1], br[1])")
-    rep.check(ok, "C04-f'", f"{RFILE}:RangeSet.intersects", "range overlap test is half-open interval overlap (or stricter)", norm(tests[0].test) if tests else "no test")
-    # sweep advance: the range with the smaller start advances
-    adv = [n for n in ast.walk(f) if isinstance(n, ast.If) and norm(n.test) in ("ar[0] < br[0]", "br[0] > ar[0]")]
-    ok = len(adv) == 1 and norm(adv[0].body[0]) == "a_idx += 1" and any(norm(s) == "b_idx += 1" for s in adv[0].orelse)
-    rep.check(ok, "C04-f'", f"{RFILE}:RangeSet.intersects", "sweep advances the range that starts first", "advance rule changed")
-    wl = [n for n in ast.walk(f) if isinstance(n, ast.While)]
-    rep.check(len(wl) == 1 and norm(wl[0].test) == "a_idx < len(a_ranges) and b_idx < len(b_ranges)", "C04-f'", f"{RFILE}:RangeSet.intersects",
-              "sweep runs until one list is exhausted", norm(wl[0].test) if wl else "")
+    # (the verdict of RangeSet.intersects itself is decided semantically in C04-a over all endpoint order types)
     nu = repo.mod("numeric_util").func("overlaps")
     rep.check(norm(nu.body[-1]) in ("return start1 < end2 and start2 < end1", "return start2 < end1 and start1 < end2",
                                     "return start1 <= end2 and start2 <= end1"), "C04-f'", "ethosu/vela/numeric_util.py:overlaps",
@@ -518,6 +614,46 @@ def rule_polarity(repo, rep):
         ok = len(s) == 1 and len(e) == 1 and norm(s[0].value) in (f"max(start_a.{ax}, start_b.{ax})", f"max(start_b.{ax}, start_a.{ax})") and \
             norm(e[0].value) in (f"min(end_a.{ax}, end_b.{ax})", f"min(end_b.{ax}, end_a.{ax})")
         rep.check(ok, "C04-f'", f"{UFILE}:coords_intersect", f"{ax}: [max(starts), min(ends))", "changed")
+    # first-job input volume: a job covers every sub-kernel of its OFM block, so the sub-kernel limit handed to
+    # get_ifm_block_size must not clip the kernel: each of its extents is the dilated kernel extent itself
+    # (or a min/max-free expression >= it); the hardware sub-kernel size or a fixed block size clips large kernels
+    fj = util.func("get_first_job_input_volume")
+    arch = repo.mod("architecture_features")
+    callee = arch.func("ArchitectureFeatures.get_ifm_block_size")
+    calls = calls_in(fj, ".get_ifm_block_size")
+    if len(calls) != 1:
+        raise AnalysisError("get_first_job_input_volume no longer calls get_ifm_block_size exactly once")
+    params = [a_.arg for a_ in callee.args.args][1:]
+    if "subkernel" not in params or "kernel" not in params:
+        raise AnalysisError("get_ifm_block_size signature not recognised")
+    lim = get_kwarg(calls[0], "subkernel", params.index("subkernel"))
+    karg = get_kwarg(calls[0], "kernel", params.index("kernel"))
+    if lim is None:
+        lim = callee.args.defaults[params.index("subkernel") - (len(params) - len(callee.args.defaults))]
+    sa = single_assignments(fj)
+    while isinstance(lim, ast.Name) and lim.id in sa:
+        lim = sa[lim.id]
+    kcls = repo.mod("operation")
+    site_fj = f"{UFILE}:get_first_job_input_volume"
+    for axis, idx, meth in (("width", 0, "area_width"), ("height", 1, "area_height")):
+        want = [st.value for st in ast.walk(callee) if isinstance(st, ast.Assign) and norm(st.targets[0]) == f"dilated_kernel_{axis}"]
+        if len(want) != 1:
+            raise AnalysisError(f"dilated_kernel_{axis} not found in get_ifm_block_size")
+        want_form = linear(substitute(want[0], {"kernel": karg}))
+        got = None
+        if isinstance(lim, ast.Call) and call_name(lim) == "Block" and len(lim.args) >= 2:
+            e = lim.args[idx]
+            if isinstance(e, ast.Call) and isinstance(e.func, ast.Attribute) and not e.args and norm(e.func.value) == norm(karg):
+                try:
+                    m = kcls.func(f"Kernel.{e.func.attr}")
+                except Exception:
+                    m = None
+                if m is not None and isinstance(m.body[-1], ast.Return):
+                    e = substitute(m.body[-1].value, {"self": karg})
+            got = linear(e)
+        rep.check(got is not None and got == want_form, "C04-f'", site_fj,
+                  f"sub-kernel limit {axis} passed to get_ifm_block_size is the dilated kernel {axis} (no clipping of the first job's receptive field)",
+                  f"limit is `{norm(lim)}`; kernels whose dilated {axis} exceeds it get a first-job volume that misses IFM rows/columns the job reads")
     rl = util.func("range_lists_overlap")
     loops = [n for n in ast.walk(rl) if isinstance(n, ast.For)]
     ok = len(loops) == 2 and {norm(l.iter) for l in loops} == {"list1", "list2"} and calls_in(rl, "ranges_overlap")
